@@ -18,7 +18,7 @@ TOP_NAMES = ["Alpha", "Beta", "Gamma", "Delta", "Epsilon", "Zeta", "Eta", "Theta
 NESTED_NAMES = ["Inner", "Part", "Item", "Detail", "Leaf", "Cell", "Meta", "Spec", "State", "Opts", "Entry2", "Row"]
 ENUM_NAMES = ["Kind", "Level", "Mode", "Color", "Phase", "Flavor", "Rank"]
 FIELD_NAMES = ["title", "count", "rating", "flags", "labels", "payload", "weight", "state", "tags", "detail", "blob", "ratio", "size",
-               "owner", "notes", "level", "extra", "stamp", "foo_bar", "x1_y2", "a_b_c", "data2", "display_name", "create_time",
+               "owner", "notes", "level", "stamp", "foo_bar", "x1_y2", "a_b_c", "data2", "display_name", "create_time",
                "page_token", "etag", "uid", "parent_ref", "next_node", "left", "right", "child", "items", "by_key", "options2", "v"]
 BIG_NUMBERS = [15, 16, 127, 128, 2047, 2048, 16383, 16384, 18999, 20000, 536870911]
 WKT = [(".google.protobuf.Struct", "google/protobuf/struct.proto"), (".google.protobuf.Value", "google/protobuf/struct.proto"),
@@ -496,6 +496,41 @@ class Builder:
             pb.field.extend(fs)
             self.features.add("fields-shuffled")
 
+    def module_named_field(self):
+        """A NESTED message (depth >= 1) of a later file gets a field named exactly like the module of an earlier file of the
+        package, followed by a field whose type comes from that module: only Proto.names (over ALL messages) forces the import
+        alias; without it the attribute shadows the module inside the class body."""
+        r = self.r
+        for _ in range(6):
+            fi = r.randrange(1, len(self.files))
+            f = self.files[fi]
+            src = self.files[r.randrange(0, fi)]
+            modname = src.proto.name.split("/")[-1][:-len(".proto")]
+            nested = [t for t in self.types if t["kind"] == "m" and t["file"] == f.proto.name and t["depth"] >= 1]
+            srcs = [t for t in self.types if t["kind"] == "m" and t["file"] == src.proto.name]
+            if not nested or not srcs:
+                continue
+            pb = r.choice(nested)["node"].proto
+            used_names = {x.name for x in pb.field}
+            used_nums = {x.number for x in pb.field}
+            if modname in used_names or any(n.name == modname for n in pb.nested_type):
+                continue
+            tgt = r.choice(srcs)["fqn"]
+            n1 = next(n for n in range(50, 90) if n not in used_nums)
+            n2 = next(n for n in range(n1 + 1, 95) if n not in used_nums)
+            a = pb.field.add()
+            a.name, a.number, a.label = modname, n1, F.LABEL_OPTIONAL
+            if r.random() < 0.5:
+                a.type, a.type_name = F.TYPE_MESSAGE, tgt
+            else:
+                a.type = SCALARS[r.choice(list(SCALARS))]
+            b = pb.field.add()
+            b.name, b.number, b.type, b.type_name = f"{modname}_items", n2, F.TYPE_MESSAGE, tgt
+            b.label = r.choice([F.LABEL_OPTIONAL, F.LABEL_REPEATED])
+            f.dep(src.proto.name)
+            self.features.add("nested-field-named-like-imported-module")
+            return
+
     def build(self):
         r = self.r
         self.dep_files = []
@@ -513,6 +548,8 @@ class Builder:
             if t["kind"] == "m" and not t.get("dep"):
                 f = next(x for x in self.files if x.proto.name == t["file"])
                 self.fill(t["node"], f)
+        if len(self.files) > 1 and fl.get("module_named_field", r.random() < 0.35):
+            self.module_named_field()
         if fl.get("pb2_clash"):
             # make sure both clashing modules are really used by one file
             f = self.files[-1]
